@@ -352,6 +352,10 @@ func CheckMain(root, id, tier string, seed uint64) int {
 	var findings []Finding
 	fixedDone, seededDone := 0, 0
 	harnessTrouble := ""
+	// simLimit: some case stalled the simulator itself (a mutex wait inside
+	// crypto/tls): no verdict about that case; violations found in other cases
+	// of the batch are still reported, and only a batch without any ends in exit 2
+	simLimit := ""
 	confirmedKinds := map[string]int{}
 	for _, wo := range outs {
 		if wo.report != nil {
@@ -394,6 +398,7 @@ func CheckMain(root, id, tier string, seed uint64) int {
 			c := MakeCase(p, sd, tier, *wo.cur)
 			// the worker's seed may be a derived one: try all
 			var confirmed *Finding
+			stalled := false
 			for _, s2 := range seeds {
 				c = MakeCase(p, s2, tier, *wo.cur)
 				if c == nil {
@@ -412,7 +417,8 @@ func CheckMain(root, id, tier string, seed uint64) int {
 					break
 				}
 				if hung && strings.Contains(died, "WATCHDOG-CLASS: simulator-limit") {
-					harnessTrouble = "the case stalls the simulator itself (known limit, see DESIGN.md 7.7): " + strings.TrimSpace(died[strings.Index(died, "WATCHDOG-CLASS:"):])
+					simLimit = "the case stalls the simulator itself (known limit, see DESIGN.md 7.7): " + strings.TrimSpace(died[strings.Index(died, "WATCHDOG-CLASS:"):])
+					stalled = true
 					break
 				}
 				if hung {
@@ -426,7 +432,7 @@ func CheckMain(root, id, tier string, seed uint64) int {
 					break
 				}
 			}
-			if confirmed == nil && strings.HasPrefix(harnessTrouble, "the case stalls the simulator itself") {
+			if confirmed == nil && stalled {
 				continue
 			}
 			if confirmed == nil && kind == "death" && !wo.cur.Fixed && wo.shards > 0 {
@@ -582,7 +588,14 @@ func CheckMain(root, id, tier string, seed uint64) int {
 	fmt.Printf("%s %s: %d runs (%d enumerated, %d seeded) in %.1fs, %d distinct non-trivial, %d new violation class(es), %d known finding(s)\n",
 		id, tier, total.Runs, fixedDone, seededDone, wall, len(digests), newViolations, knownHits)
 	if newViolations > 0 {
+		if simLimit != "" {
+			fmt.Fprintln(os.Stderr, "note: beside the violation(s) above, "+simLimit)
+		}
 		return 1
+	}
+	if simLimit != "" {
+		fmt.Fprintln(os.Stderr, "HARNESS TROUBLE (exit 2, not a verdict):\n"+simLimit)
+		return 2
 	}
 	if total.Runs == 0 {
 		fmt.Fprintln(os.Stderr, "HARNESS TROUBLE: no run was executed")
